@@ -689,7 +689,8 @@ def run(ctx):
                                    'impl': si[sd] if sd < len(si) else None, 'python_list': so[sd],
                                    'impl_trace': si, 'python_trace': so, 'unshrunk': {'init': init, 'history': cops}})
                 continue
-            exprs.append('(run step %s, run pystep %s)' % (coq_hist(init, cops), coq_hist(init, cops)))
+            hh = coq_hist(init, cops)
+            exprs.append('(run step %s, run pystep %s, valid_histb %s)' % (hh, hh, hh))
             meta.append(('hist', ti, key, ti_tr, or_tr))
     ctx.log('%d histories on the implementation vs Python list: %d mismatching' % (len(types) * per_type, nviol))
 
@@ -766,6 +767,10 @@ def run(ctx):
             try:
                 if what == 'hist':
                     mtr, ptr = coq_trace(ti, r[0]), coq_trace(ti, r[1])
+                    if r[2] is not True:
+                        ctx.broken.append({'kind': 'correspondence', 'what': 'generated history is outside the hypothesis '
+                                           'valid_hist of C31_history_refines', 'case': key})
+                        continue
                 else:
                     mtr, ptr = coq_trace(ti, r), None
             except Exception as e:   # noqa
